@@ -419,12 +419,15 @@ def c17_steps(tier):
     if tier == "quick":
         return [ws_live("routing_1x1", "routing", ["--socket_workers", "1", "--swarm_workers", "1", "--ops", "250"]),
                 ws_live("routing_2x3", "routing", ["--socket_workers", "2", "--swarm_workers", "3", "--ops", "350"]),
-                ws_live("keepalive_2x2", "keepalive", ["--socket_workers", "2", "--swarm_workers", "2", "--rounds", "3"])]
+                ws_live("keepalive_2x2", "keepalive", ["--socket_workers", "2", "--swarm_workers", "2", "--rounds", "3"]),
+                ws_live("closerace_2x2", "closerace", ["--socket_workers", "2", "--swarm_workers", "2", "--connections", "300"])]
     out = []
     for s in (1, 2, 3):
         for w in (1, 2, 3):
             out.append(ws_live("routing_%dx%d" % (s, w), "routing", ["--socket_workers", str(s), "--swarm_workers", str(w), "--ops", "3000", "--connections", "10" if s < 3 else "20", "--rounds", "12"]))
     out.append(ws_live("corpus", "corpus", ["--cases", "3000"]))
+    for (sw, w2) in ((1, 1), (2, 2), (3, 2), (1, 3)):
+        out.append(ws_live("closerace_%dx%d" % (sw, w2), "closerace", ["--socket_workers", str(sw), "--swarm_workers", str(w2), "--connections", "600"]))
     for (sw, idle, interval) in ((1, 4, 3), (3, 6, 2), (2, 2, 4), (2, 30, 2)):
         out.append(ws_live("keepalive_%dx2_idle%d_int%d" % (sw, idle, interval), "keepalive", ["--socket_workers", str(sw), "--swarm_workers", "2", "--rounds", "8", "--idle", str(idle), "--interval", str(interval)]))
     return out
@@ -443,7 +446,7 @@ PLANS["C17"] = {
                     "a second peer id is 'refused with an error' if an error message arrives or the tracker drops the connection (the message races with the teardown; delivery is reported as an observation), and never an announce reply",
                     "an empty info-hash list may be answered by an error or an empty scrape reply",
                     "the tracker may close a connection on its own only after max_connection_idle seconds of its clock without an announce / scrape reply sent to it"],
-    "level_text": "Exploration on the live tracker: 10-20 hand-written WebSocket connections (IPv4 and ::1, text and binary frames) on 1-3 socket workers run random sequences of announces (own peer id, somebody else's peer id, a second peer id), offers, answers to outstanding and to invented offers, scrapes (absent / empty / single / list, spanning swarm workers), orderly closes and TCP resets; after each operation (fenced by a scrape travelling the same path) every connection's new messages are classified: offers and answers must arrive at exactly the connection that created the addressed peer, every non-ignored announce and every scrape gets exactly one reply, ignored announces get nothing, and after each close an observer's scrape must equal the reference model. A concurrent phase checks conservation (no offer to a non-member, to its sender, or twice) and scrape totals at quiescence. The accept distribution over socket workers is reported; a multi-worker run in which all connections landed on one worker is inconclusive.",
+    "level_text": "Exploration on the live tracker: 10-20 hand-written WebSocket connections (IPv4 and ::1, text and binary frames) on 1-3 socket workers run random sequences of announces (own peer id, somebody else's peer id, a second peer id), offers, answers to outstanding and to invented offers, scrapes (absent / empty / single / list, spanning swarm workers), orderly closes and TCP resets; after each operation (fenced by a scrape travelling the same path) every connection's new messages are classified: offers and answers must arrive at exactly the connection that created the addressed peer, every non-ignored announce and every scrape gets exactly one reply, ignored announces get nothing, and after each close an observer's scrape must equal the reference model. A concurrent phase checks conservation (no offer to a non-member, to its sender, or twice) and scrape totals at quiescence. Close race: hundreds of connections announce one peer each and are closed / reset at once; when all clean-ups are processed the torrent must be empty (known finding ws.close.overtakes_inflight_announce). The accept distribution over socket workers is reported; a multi-worker run in which all connections landed on one worker is inconclusive.",
     "level_note": "Trusted: the WebSocket client, vcore::json, vcore::wsmodel; counters ws.cleanup_done / ws.swarm.connection_closed_handled.",
     "design_ref": "3/C17",
 }
